@@ -7,11 +7,17 @@
     - the exact amount every operation of the claim stage moves (participant: price x (confirmed -
       winning), C09; owner: the recorded proceeds = price x winners, once), and how the proceeds are
       recorded (C03 at base selection, [finish_gt] at the distribution step).
-    Not proved in Coq (DESIGN.md 6, C01): the link "sum over participants of winning tickets =
-    recorded winners" that turns these into the closed-form balance after selection, and the
-    NFT-fee share when the fee uses the same token.  Both are monitored on every run by the
-    holdings oracle over the implementation and by the balance correspondence. *)
-From LP Require Import Proofs.Tactics Proofs.LedgerBase Proofs.Gates Proofs.Frames Proofs.Settle Proofs.Confirm Proofs.Ledger Proofs.Examples.
+    - the claim period ([ClaimInv]: holdings = owner's not yet withdrawn proceeds + price x (confirmed -
+      winning) of every participant who has not settled): established from [PayInv] when the
+      selection is complete, preserved by every settlement and by the owner's withdrawal in any
+      order; under it every settlement and the payment-token leg of the withdrawal *succeed* and pay
+      exactly; when everybody has settled and the owner has withdrawn the holdings are zero.
+    [C01_claim_start_from_layout] derives the per-participant hypotheses of [C01_claim_start] from the
+    tiling the filter leaves ([C08_layout]) and the count of marked tickets ([C03_base], [C03_final]);
+    what remains assumed is [PayInv] at that moment and proceeds = price x winners (C03).  Not covered: the NFT-fee share when the fee
+    uses the same token (C14; oracle + balance correspondence). *)
+From LP Require Import Proofs.Tactics Proofs.LedgerBase Proofs.Gates Proofs.Frames Proofs.Settle Proofs.Confirm Proofs.Ledger
+  Proofs.ClaimLedger Proofs.Filter Proofs.Partition Proofs.Examples.
 Open Scope N_scope.
 
 Theorem C01_confirm_keeps_solvency : forall (H : list N -> list N) v e b sd w n w' r A,
@@ -68,6 +74,81 @@ Theorem C01_participant_refund : forall e w w' wins,
             else []) ++ evs w.
 Proof. exact settle_spec. Qed.
 
+(** ** the claim period *)
+Theorem C01_claim_start : forall w A,
+  PayInv w A ->
+  (forall a, ~ In a A -> range (st w) a = None) ->
+  (forall a, In a A -> winning_of (st w) a <= confirmed (st w) a) ->
+  ranges_disjoint (st w) A ->
+  nr_winning (st w) = sumN (map (winning_of (st w)) A) ->
+  claimable_payment (st w) = price (st w) * nr_winning (st w) ->
+  ClaimInv w A.
+Proof. exact ClaimInv_start. Qed.
+
+(** ... in particular from the tiling the filter leaves (C08_layout) and the count of marked tickets
+    (C03_base / C03_final): no hypothesis about individual participants is left *)
+Theorem C01_claim_start_from_layout : forall w A,
+  PayInv w A -> Layout (range (st w)) (confirmed (st w)) 0 A ->
+  (forall a, ~ In a A -> range (st w) a = None) ->
+  count_winning (st w) (range_ids 1 (sumN (map (confirmed (st w)) A))) = nr_winning (st w) ->
+  claimable_payment (st w) = price (st w) * nr_winning (st w) ->
+  ClaimInv w A.
+Proof. exact ClaimInv_from_layout. Qed.
+
+(** a participant with tickets settles: the call cannot fail, pays exactly price x (confirmed -
+    winning), keeps the invariant *)
+Theorem C01_settle : forall e w A,
+  ClaimInv w A -> range (st w) (caller e) <> None ->
+  exists w' wins,
+    settle_tickets e w = Ok (w', wins) /\ wins = winning_of (st w) (caller e) /\
+    ClaimInv w' A /\
+    bal w' = (if 0 <? due (st w) (caller e)
+              then bal_after (bal w) sc_addr (caller e) (pay_token (st w)) 0 (price (st w) * due (st w) (caller e))
+              else bal w) /\
+    due (st w') (caller e) = 0 /\ winning_of (st w') (caller e) = 0 /\
+    claimable_payment (st w') = claimable_payment (st w).
+Proof. exact ClaimInv_settle. Qed.
+
+(** the payment-token leg of the owner's withdrawal cannot fail and pays the recorded proceeds *)
+Theorem C01_owner_leg : forall e w A,
+  ClaimInv w A -> caller e <> sc_addr ->
+  exists w1, pay_leg e w = Ok w1 /\ ClaimInv w1 A /\ claimable_payment (st w1) = 0 /\
+    (exists s1, st w1 = st w <| claimable_payment := s1 |>) /\
+    bal w1 = (if 0 <? claimable_payment (st w)
+              then bal_after (bal w) sc_addr (caller e) (pay_token (st w)) 0 (claimable_payment (st w)) else bal w).
+Proof. exact ClaimInv_pay_leg. Qed.
+
+Theorem C01_owner : forall e w w' A,
+  ClaimInv w A -> caller e <> sc_addr -> pay_token (st w) <> lp_token (st w) ->
+  claim_ticket_payment e w = Ok w' ->
+  ClaimInv w' A /\ claimable_payment (st w') = 0 /\
+  bal w' (caller e) (pay_token (st w)) 0 = bal w (caller e) (pay_token (st w)) 0 + claimable_payment (st w).
+Proof. exact ClaimInv_owner. Qed.
+
+Theorem C01_owner_gt : forall e w w' A,
+  ClaimInv w A -> caller e <> sc_addr -> pay_token (st w) <> lp_token (st w) ->
+  claim_ticket_payment_gt e w = Ok w' ->
+  ClaimInv w' A /\ claimable_payment (st w') = 0 /\
+  bal w' (caller e) (pay_token (st w)) 0 = bal w (caller e) (pay_token (st w)) 0 + claimable_payment (st w).
+Proof. exact ClaimInv_owner_gt. Qed.
+
+(** any order of settlements and withdrawals *)
+Theorem C01_any_order : forall w w' A, ClaimInv w A -> pay_steps w w' -> ClaimInv w' A.
+Proof. exact ClaimInv_steps. Qed.
+
+Theorem C01_drained : forall w A,
+  ClaimInv w A -> (forall a, In a A -> confirmed (st w) a = 0) -> claimable_payment (st w) = 0 ->
+  bal w sc_addr (pay_token (st w)) 0 = 0.
+Proof. exact ClaimInv_drained. Qed.
+
+(** the decidable part of [ClaimInv] holds in a concrete state after the base selection *)
+Example C01_claim_nonvacuous :
+  let s := st base_selected in
+  bal base_selected sc_addr (pay_token s) 0 = price s * sumN (map (due s) [2; 3]) + claimable_payment s /\
+  nr_winning s = sumN (map (winning_of s) [2; 3]) /\ nr_winning s = 2 /\
+  map (range s) [2; 3] = [Some (1, 2); Some (3, 4)] /\ claimable_payment s = 2000.
+Proof. vm_compute. repeat split. Qed.
+
 (** Non-vacuity: a concrete reachable state satisfies the invariant; after all claims of a concrete
     lifecycle the contract holds nothing of the payment token. *)
 Example C01_nonvacuous :
@@ -84,4 +165,13 @@ Print Assumptions C01_frame.
 Print Assumptions C01_owner_withdrawal.
 Print Assumptions C01_proceeds_of_distribution.
 Print Assumptions C01_participant_refund.
+Print Assumptions C01_claim_start.
+Print Assumptions C01_claim_start_from_layout.
+Print Assumptions C01_settle.
+Print Assumptions C01_owner_leg.
+Print Assumptions C01_owner.
+Print Assumptions C01_owner_gt.
+Print Assumptions C01_any_order.
+Print Assumptions C01_drained.
+Print Assumptions C01_claim_nonvacuous.
 Print Assumptions C01_nonvacuous.
